@@ -41,6 +41,10 @@ theorem PreTail.preDone {P : List Ev} {s : Worker.State} {n : Nat} (h : PreTail 
   · exact .inr (.inr (.inl ⟨rest, a⟩))
   · exact .inr (.inr (.inr (.inl ⟨o, a, b⟩)))
 
+theorem EA_upd {n : Nat} {a a' : Acc} {us : List Update} (h : a'.upd = a.upd ++ us) :
+    EA n a' = EA n a ++ us.flatMap (evsW n) := by
+  simp [EA, h]
+
 /-! ### what the worker holds -/
 
 structure SameHold (n : Nat) (s s' : Worker.State) : Prop where
@@ -96,7 +100,7 @@ theorem tryStart_other {n : Nat} {a a' : Acc} {x : Task} {rv h : Nat} {p c : Boo
     simp [EA, h3, evsW, hx]
   · refine ⟨by rw [h1]; exact SameHold.refl _ _, ?_, fun _ => h1, by rw [h1]⟩
     simp [EA, h3, evsW, hx]
-  · refine ⟨?_, ?_, fun e => by rw [h0] at e; cases e, by rw [h1]; rfl⟩
+  · refine ⟨?_, ?_, fun e => (by rw [h0] at e; cases e), by rw [h1]; rfl⟩
     · rw [h1]
       exact ⟨by rw [isRun_started]; simp [hx], fun _ => rfl⟩
     · cases p <;> simp [EA, h3, evsW, hx]
@@ -116,13 +120,13 @@ theorem tryStart_grow {n : Nat} {a a' : Acc} {x : Task} {rv h : Nat} {p c : Bool
     (∃ X, EA n a' = EA n a ++ X) ∧ (∀ o ∈ a'.ev, o ∈ a.ev ∨ outMsg o = none) := by
   obtain ⟨_, hc⟩ := tryStart_cases hs
   rcases hc with ⟨_, _, h2, h3⟩ | ⟨_, _, h2, h3⟩ | ⟨_, _, _, h2, h3⟩
-  · exact ⟨⟨_, by simp [EA, h3]⟩, fun o ho => .inl (h2 ▸ ho)⟩
-  · refine ⟨⟨_, by simp [EA, h3]⟩, fun o ho => ?_⟩
+  · exact ⟨⟨_, EA_upd h3⟩, fun o ho => .inl (h2 ▸ ho)⟩
+  · refine ⟨⟨_, EA_upd h3⟩, fun o ho => ?_⟩
     rw [h2] at ho
     rcases List.mem_append.mp ho with ho | ho
     · exact .inl ho
     · simp only [List.mem_singleton] at ho; subst ho; exact .inr rfl
-  · refine ⟨⟨_, by simp [EA, h3]⟩, fun o ho => ?_⟩
+  · refine ⟨⟨_, EA_upd h3⟩, fun o ho => ?_⟩
     rw [h2] at ho
     rcases List.mem_append.mp ho with ho | ho
     · exact .inl ho
@@ -315,7 +319,7 @@ theorem computeEntry_grow {n : Nat} {a a' : Acc} {e : Entry} (hs : computeEntry 
     · cases hs
     · split at hs
       · cases hs
-        exact ⟨⟨_, by simp [EA]⟩, fun o ho => .inl ho, .inl (bkeys_insertBlocked _ _)⟩
+        exact ⟨⟨_, EA_upd rfl⟩, fun o ho => .inl ho, .inl (bkeys_insertBlocked _ _)⟩
       · rename_i hh halloc
         split at hs
         · cases hs
@@ -544,6 +548,10 @@ theorem computeEntries_one {n : Nat} : ∀ (es : List Entry) {a a' : Acc} (orv :
 
 /-! ### whole steps -/
 
+theorem ok_pair {α β ε : Type} {x : α × β} {a : α} {b : β} (h : (Except.ok x : Except ε (α × β)) = .ok (a, b)) :
+    a = x.1 ∧ b = x.2 := by
+  cases h; exact ⟨rfl, rfl⟩
+
 theorem evsOut_none {n : Nat} {o : Worker.Out} (h : outMsg o = none) : evsOut n o = [] := by
   cases o <;> simp_all [outMsg, evsOut]
 
@@ -595,11 +603,10 @@ theorem cancelOne_hold (n : Nat) (a : Worker.State × List Worker.Out) (t : Nat)
     refine ⟨fun o ho => .inl ho, ?_, ?_⟩
     · intro hf
       refine ⟨hf.1, fun rq => ?_⟩
-      have := hf.2 rq
-      simp only [bcount, List.length_eq_zero_iff, List.filter_eq_nil_iff, List.filter_filter] at this ⊢
+      have h0 := hf.2 rq
+      simp only [bcount, List.length_eq_zero_iff, List.filter_eq_nil_iff] at h0 ⊢
       intro x hx
-      have := this x (List.mem_of_mem_filter hx)
-      simp_all
+      exact h0 x (List.mem_filter.mp hx).1
     · intro hb
       by_cases ht : t = n
       · right
@@ -674,7 +681,7 @@ theorem retractCheckLoop_spec {n : Nat} (s : Worker.State) (rem : Nat) : ∀ (or
     · cases hs
     · split at hs
       · obtain ⟨rm, h1, h2, h3⟩ := retractCheckLoop_spec s rem rest _ _ hs
-        refine ⟨rq :: rm, by rw [h1]; simp, h2.cons₂ _, ?_⟩
+        refine ⟨rq :: rm, by rw [h1]; simp, h2.cons_cons _, ?_⟩
         rw [h3]; simp
       · obtain ⟨rm, h1, h2, h3⟩ := retractCheckLoop_spec s rem rest _ _ hs
         exact ⟨rm, h1, h2.cons _, h3⟩
@@ -708,6 +715,7 @@ theorem step_free {n : Nat} {s s' : Worker.State} {op : Worker.Op} {outs : List 
       obtain ⟨_, g2, _⟩ := computeEntries_grow (n := n) es ha
       obtain ⟨p1, p2⟩ := g1 hf
       refine ⟨p1, ?_⟩
+      change evsOuts n (finish a).2 = []
       rw [evsOuts_finish n a (fun o ho => by rcases g2 o ho with h | h; cases h; exact h)]
       rw [p2]; rfl
   | retract ids =>
@@ -727,9 +735,11 @@ theorem step_free {n : Nat} {s s' : Worker.State} {op : Worker.Op} {outs : List 
         intro rq _ x hx hid
         exact not_free_of_mem hx.1 hid hf
   | cancel ids =>
-    simp only [Worker.step] at hs
-    cases hs
+    simp only [Worker.step, Except.ok.injEq] at hs
     obtain ⟨g1, g2, _⟩ := cancel_hold n ids (s, [])
+    have e1 : s' = (ids.foldl cancelOne (s, [])).1 := (congrArg Prod.fst hs).symm
+    have e2 : outs = (ids.foldl cancelOne (s, [])).2 := (congrArg Prod.snd hs).symm
+    rw [e1, e2]
     exact ⟨g2 hf, evsOuts_of_none fun o ho => by rcases g1 o ho with h | h; cases h; exact h⟩
   | taskEnd t res en =>
     simp only [Worker.step, taskEnd] at hs
@@ -744,8 +754,10 @@ theorem step_free {n : Nat} {s s' : Worker.State} {op : Worker.Op} {outs : List 
         have h0 : Free ({ s with running := s.running.filter (fun x => x.task.id != t) } : Worker.State) n := by
           refine ⟨?_, hf.2⟩
           rintro ⟨x, hx, e⟩
-          exact hf.1 ⟨x, List.mem_of_mem_filter hx, e⟩
-        obtain ⟨p1, p2⟩ := prefillLoop_free (n := n) _ rfl h0 hpl
+          exact hf.1 ⟨x, (List.mem_filter.mp hx).1, e⟩
+        obtain ⟨p1, p2⟩ := prefillLoop_free (n := n)
+          (a := { s := { s with running := s.running.filter (fun x => x.task.id != t) }, upd := resultUpdates t res })
+          _ rfl h0 hpl
         obtain ⟨_, g2, _⟩ := prefillLoop_grow (n := n) _ hpl
         have hE0 : EA n a = [] := by
           rw [p2]
@@ -753,14 +765,19 @@ theorem step_free {n : Nat} {s s' : Worker.State} {op : Worker.Op} {outs : List 
         have hev : ∀ o ∈ a.ev, outMsg o = none := fun o ho => by rcases g2 o ho with h | h; cases h; exact h
         split at hs
         · split at hs
-          · cases hs
+          · obtain ⟨e1, e2⟩ := ok_pair hs
+            rw [e1, e2]
             refine ⟨⟨p1.1, p1.2⟩, ?_⟩
-            rw [evsOuts_finish n _ hev]
+            refine (evsOuts_finish n _ ?_).trans ?_
+            · exact hev
             simp only [EA, List.flatMap_append]
             rw [show a.upd.flatMap (evsW n) = [] from hE0]
-            simp [evsW]
+            simp only [List.nil_append, List.flatMap_eq_nil_iff, List.mem_map]
+            rintro u ⟨k, _, rfl⟩
+            rfl
           · cases hs
-        · cases hs
+        · obtain ⟨e1, e2⟩ := ok_pair hs
+          rw [e1, e2]
           exact ⟨p1, by rw [evsOuts_finish n a hev]; exact hE0⟩
   | timeoutFire t =>
     simp only [Worker.step, timeoutFire] at hs
@@ -802,9 +819,8 @@ theorem step_free {n : Nat} {s s' : Worker.State} {op : Worker.Op} {outs : List 
                 · exact hf.2 rq
               · simp only [evsOuts, List.flatMap_cons, List.flatMap_nil, List.append_nil, evsOut]
                 rw [h3]
-                simp only [List.flatMap_nil, List.nil_append, List.flatMap_eq_nil_iff]
-                intro rq _
-                rw [rejects_of_bcount, hf.2 rq]; rfl
+                simp only [List.flatMap_nil, List.nil_append]
+                exact List.flatMap_eq_nil_iff.mpr fun rq _ => by rw [rejects_of_bcount, hf.2 rq]; rfl
         · cases hs
   | newRq id mts =>
     simp only [Worker.step, newRq] at hs
